@@ -182,8 +182,16 @@ func (i *interpreter) mkInt(t *Term, k types.BasicKind) value {
 		w.Add(w, lo)
 		return boxInt(w, k)
 	}
-	i.path.addObligation(And(Le(BigC(lo), t), Le(t, BigC(hi))), "integer range "+types.Typ[k].Name())
-	return symInt{i.path.name(t), k}
+	if t.Lo != nil && t.Hi != nil && t.Lo.Cmp(new(big.Rat).SetInt(lo)) >= 0 && t.Hi.Cmp(new(big.Rat).SetInt(hi)) <= 0 {
+		return symInt{i.path.name(t), k} // statically within the type
+	}
+	// may leave the type's range: Go wraps around (two's complement)
+	m := new(big.Int).Sub(hi, lo)
+	m.Add(m, big.NewInt(1))
+	w := Add(eMod(Sub(t, BigC(lo)), BigC(m)), BigC(lo))
+	w.Lo, w.Hi = new(big.Rat).SetInt(lo), new(big.Rat).SetInt(hi)
+	i.path.wrapped++
+	return symInt{i.path.name(w), k}
 }
 
 // rawInt wraps without a range obligation (engine-manufactured values, e.g.
